@@ -407,6 +407,8 @@ def check_state(col, base, arr, ids, hist):
     # invalid requests raise what pandas expects
     invalid = [("index_high", lambda: arr[n], IndexError), ("index_low", lambda: arr[-n - 1], IndexError),
                ("mask_len", lambda: arr[np.ones(n + 1, dtype=bool)], IndexError),
+               ("mask_too_long_false_tail", lambda: arr[np.array([True] * n + [False, False])], IndexError),
+               ("mask_too_long_list", lambda: arr[[True] * n + [False]], IndexError),
                ("take_oob", lambda: arr.take([n]), IndexError),
                ("take_fill_lt", lambda: arr.take([-2], allow_fill=True), ValueError),
                ("take_fill_value", lambda: arr.take([0] if n else [-1], allow_fill=True, fill_value=1.5), ValueError)]
